@@ -4,6 +4,7 @@ CONSTANTS MaxRound = 0
  MaxHyps = 2
  N = 2
  EmitRejected = FALSE
+ Focus = FALSE
  MaxLen = 2
 INVARIANT LastOK
 CHECK_DEADLOCK FALSE
